@@ -43,21 +43,28 @@ structure Case where
 
 /-- what was observed of it -/
 structure Obs where
-  /-- endpoints the message was queued for, with multiplicity -/
+  /-- endpoints the message was queued for (on the newest connection), with multiplicity -/
   sent : List Ep
   persist : Bool
   originZone : Option Zone
+  /-- copies of the message found on other connections than the newest one of their endpoint -/
+  extraCopies : Nat := 0
+  /-- what `GetMaster()` answers on the node in this scenario (`none`: not observed) -/
+  master : Option Ep := none
   deriving Repr, DecidableEq, Inhabited
 
 inductive Clause
-  | reachable_only | only_entitled | no_echo | no_duplicate | single_entry | only_master_crosses
-  | logged_not_dropped | origin_zone_copied
+  | reachable_only | only_entitled | no_echo | no_duplicate | one_copy_per_endpoint | single_entry | only_master_crosses
+  | logged_not_dropped | origin_zone_copied | master_by_names_and_connectedness | forwarded_when_reachable | same_master
   deriving Repr, DecidableEq, Inhabited
 
 def Clause.name : Clause → String
   | .reachable_only => "reachable_only" | .only_entitled => "only_entitled" | .no_echo => "no_echo"
   | .no_duplicate => "no_duplicate" | .single_entry => "single_entry" | .only_master_crosses => "only_master_crosses"
   | .logged_not_dropped => "logged_not_dropped" | .origin_zone_copied => "origin_zone_copied"
+  | .one_copy_per_endpoint => "one_copy_per_endpoint"
+  | .master_by_names_and_connectedness => "master_by_names_and_connectedness"
+  | .forwarded_when_reachable => "forwarded_when_reachable" | .same_master => "same_master"
 
 def nodupB : List Ep → Bool
   | [] => true
@@ -71,6 +78,25 @@ def notMasterB (T : Topo) (self : Ep) : Bool :=
 def isZoneMasterB (T : Topo) (self : Ep) (e : Ep) : Bool :=
   T.zoneOf e == T.zoneOf self && T.conn self e &&
   (T.eps self (T.zoneOf self)).all (fun x => !(T.conn self x || x == self) || e ≤ x)
+
+/-- `x` is the zone master as node `self` has to see it: a member of the node's zone that is reachable (or the node
+    itself) such that no reachable member (nor the node) has a smaller name - names and connectedness, nothing else -/
+def masterIsB (T : Topo) (self : Ep) (x : Ep) : Bool :=
+  (T.eps self (T.zoneOf self)).contains x && (T.conn self x || x == self) &&
+  (T.eps self (T.zoneOf self)).all (fun y => !(T.conn self y || y == self) || x ≤ y)
+
+/-- the zone peer `p` must get the event: it is reachable, not busy with a log replay, the origin does not forbid it,
+    and the node or `p` is the zone master -/
+def peerDueB (T : Topo) (c : Case) (p : Ep) : Bool :=
+  p != c.self && T.conn c.self p && !T.syncing c.self p && c.origin.client != some p &&
+  c.origin.fromZone != some (T.zoneOf c.self) && (masterIsB T c.self c.self || masterIsB T c.self p)
+
+/-- the foreign zone `z` must get the event through one of its endpoints: the node is the zone master, reaches a member
+    of `z`, none of them is busy with a log replay, and the origin does not forbid the zone or one of its members -/
+def zoneDueB (T : Topo) (c : Case) (z : Zone) : Bool :=
+  z != T.zoneOf c.self && masterIsB T c.self c.self && c.origin.fromZone != some z &&
+  (T.eps c.self z).all (fun x => c.origin.client != some x && !T.syncing c.self x) &&
+  (T.eps c.self z).any (fun x => x != c.self && T.conn c.self x)
 
 /-- the node has somebody to send to in `z` but reaches none of them -/
 def unreachableB (T : Topo) (self : Ep) (z : Zone) : Bool :=
@@ -92,6 +118,8 @@ def specCase (fuel : Nat) (T : Topo) (c : Case) (o : Obs) : Option Clause :=
   -- "never back to the endpoint or zone it came from"
   else if !o.sent.all (fun e => c.origin.client != some e && c.origin.fromZone != some (T.zoneOf e)) then some .no_echo
   else if !nodupB o.sent then some .no_duplicate
+  -- "no endpoint processes the same event twice": one copy per target endpoint, on one connection
+  else if o.extraCopies != 0 then some .one_copy_per_endpoint
   -- "a foreign zone is entered through a single endpoint"
   else if !o.sent.all (fun a => o.sent.all (fun b => !(T.zoneOf a == T.zoneOf b && T.zoneOf a != lz) || a == b)) then some .single_entry
   -- "only the current zone master forwards across zone borders" (a non-master talks to the master and nobody else)
@@ -101,9 +129,30 @@ def specCase (fuel : Nat) (T : Topo) (c : Case) (o : Obs) : Option Clause :=
       directlyRelated T c.self z && entitledB fuel T c.self c.objZone z && unreachableB T c.self z) then some .logged_not_dropped
   -- the origin zone travels with the message (what the second hop's no-echo test reads)
   else if o.originZone != c.origin.fromZone then some .origin_zone_copied
+  -- "the current zone master": the choice depends on names and connectedness only
+  else if (match o.master with | some m => !masterIsB T c.self m | none => false) then some .master_by_names_and_connectedness
+  -- "every endpoint of every entitled zone processes the event": what is due at this hop is sent
+  else if entitledB fuel T c.self c.objZone lz && !(T.eps c.self lz).all (fun p => !peerDueB T c p || o.sent.contains p)
+    then some .forwarded_when_reachable
+  else if !(candidateZones T c.self c.objZone).all (fun z =>
+      !(directlyRelated T c.self z && entitledB fuel T c.self c.objZone z && zoneDueB T c z) ||
+      o.sent.any (fun e => (T.eps c.self z).contains e)) then some .forwarded_when_reachable
   else none
 
-def Result.obs (r : Result) : Obs := ⟨r.sent, r.persist, r.originZone⟩
+/-- Two nodes asked for their zone master in the same scenario: each answer obeys names and connectedness, and two nodes
+    of one zone that have the same view (in particular two peers that see each other) name the same master. -/
+def specMasterPair (T : Topo) (a b : Ep) (ma mb : Option Ep) : Option Clause :=
+  let ok := fun (s : Ep) (m : Option Ep) => match m with | some x => masterIsB T s x | none => false
+  let sameView := T.zoneOf a == T.zoneOf b &&
+    (T.eps a (T.zoneOf a)).all (fun x => (T.eps b (T.zoneOf b)).contains x && (T.conn a x || x == a) == (T.conn b x || x == b)) &&
+    (T.eps b (T.zoneOf b)).all (fun x => (T.eps a (T.zoneOf a)).contains x)
+  if !ok a ma || !ok b mb then some .master_by_names_and_connectedness
+  else if sameView && ma != mb then some .same_master
+  else none
+
+/-- what is observable of the model's relay step on node `self` -/
+def Result.obs (T : Topo) (self : Ep) (r : Result) : Obs :=
+  { sent := queued T self r, persist := r.persist, originZone := r.originZone, extraCopies := 0, master := getMaster T self }
 
 /-- Global zones stand beside the zone tree: a global zone is nobody's parent (`Zone::OnAllConfigLoaded` refuses
     that, zone.cpp:19-20) and has no parent itself (nothing refuses that; it is what "zone trees plus global zones"
